@@ -178,6 +178,7 @@ def _shard_main(mod_name, tier, seed, shard, nshards, rundir, deadline):
     stats = ShardStats()
     result_path = rundir/f'shard-{shard}.json'
     fail_path = rundir/f'shard-{shard}.fail.json'
+    ckpt_path = rundir/f'shard-{shard}.ckpt.json'
     try:
         mod = importlib.import_module(mod_name)
         ctx = Ctx(rundir/f'w{shard}', tier, shard)
@@ -214,6 +215,8 @@ def _shard_main(mod_name, tier, seed, shard, nshards, rundir, deadline):
                 if out.violation:
                     stats.violations.append(dict(bucket=out.bucket, msg=out.violation,
                         case=case, detail=out.detail, source='exhaustive'))
+                if stats.exhaustive_done % 200 == 0:
+                    stats.dump(ckpt_path)
                     if len(stats.violations) >= 3:
                         break
 
@@ -224,7 +227,7 @@ def _shard_main(mod_name, tier, seed, shard, nshards, rundir, deadline):
         if n_examples and hasattr(mod, 'strategy'):
             import hypothesis
             from hypothesis import given, settings, HealthCheck, Phase
-            state = {'failed': False}
+            state = {'failed': False, 'ckpt': time.time()}
 
             @hypothesis.seed(seed * 1000 + shard)
             @settings(max_examples=n_examples, database=None, deadline=None,
@@ -239,6 +242,11 @@ def _shard_main(mod_name, tier, seed, shard, nshards, rundir, deadline):
                 out = _eval(mod, case, ctx, open_ids)
                 if not state['failed']:
                     stats.add(case, out)
+                    if time.time() - state['ckpt'] > 10:
+                        # checkpoint: a shard stopped at the wall-clock limit in the middle of
+                        # a slow case loses that case only (counted inconclusive)
+                        state['ckpt'] = time.time()
+                        stats.dump(ckpt_path)
                 if out.violation and os.environ.get('VERIF_COLLECT'):
                     # calibration mode: bucket every discrepancy, never stop
                     key = out.bucket
@@ -374,6 +382,12 @@ def run_check(prop_id:str, tier:str) -> int:
         for k in range(nshards):
             rp = rundir/f'shard-{k}.json'
             fp = rundir/f'shard-{k}.fail.json'
+            cp = rundir/f'shard-{k}.ckpt.json'
+            if not rp.exists() and not fp.exists() and cp.exists() and k in killed:
+                # stopped at the wall-clock limit in the middle of a slow case: everything up
+                # to the last checkpoint counts, the case in flight is inconclusive
+                rp = cp
+                total.inconclusive['shard_stopped_at_wall_clock_limit'] += 1
             if rp.exists():
                 data = json.loads(rp.read_text())
                 total.evaluations += data['evaluations']
